@@ -47,6 +47,7 @@ PAYLOADS = {
     "toml-terminator": '"\nzvq = "zvq',
     "cooked-escape": "\\xzvq",
     "nul": "\x00zvq",
+    "line-separator": "\u2028zvq",
     # thorough only
     "carriage-return": "\rzvq",
     "raw-doc-end": '\\"""zvq',
@@ -55,7 +56,7 @@ PAYLOADS = {
     "triple-single": "'''zvq",
     "brace-open": "{zvq",
 }
-QUICK = list(PAYLOADS)[:13]
+QUICK = list(PAYLOADS)[:14]
 _REM = re.compile(r"(?i)([_-]?é中)?[_-]?x?zvq")
 
 
@@ -108,7 +109,7 @@ def _jinja_docstring():
 
 def lit_strings(run, tier):
     rng = run.rng
-    n = 1100 if tier == "quick" else 9000
+    n = 800 if tier == "quick" else 9000
     alpha = S.HOSTILE + ['"', '"', "'", "\\", "\\", "n", "x", "{", "}", "#", "\r"]
     out = ["", '"', "'", "\\", '\\"', '""', '"""', '\\"""', "a\\", "a\nb", "a\rb", "it's", 'say "hi"', "'\"", "\\n", "\\x41", "\\N{DASH}", "\\8", "\\\n", "a\x00b",
            '""" + x + """', "\\\\", '\\\\"', "{x}", "é\x7f\x80\xad\u2028"]
@@ -410,11 +411,23 @@ def build_cases(run, tier, table):
     classes = QUICK if quick else list(PAYLOADS)
     few = ["triple-quote", "double-quote", "trailing-backslash", "cooked-escape"]
     cases = []
+    # quick tier: slots with the same site signature (same rows in the table) go through the same template code; two representatives per
+    # signature (chosen by the seed) get every class, the others the four classes that distinguish docstring / literal forms
+    sig = {}
+    for r in table["rows"]:
+        sig.setdefault(r[0], set()).add((r[1], r[2], r[3]))
+    groups = {}
+    for label in labels:
+        if label in emitted:
+            groups.setdefault(frozenset(sig.get(label, ())), []).append(label)
+    reps = set()
+    for g in groups.values():
+        reps.update(rng.sample(sorted(g), min(2, len(g))) if quick else g)
     for label in labels:
         if label not in emitted:
             continue
         for (meta, cfg) in cfgs_for(label):
-            full = True
+            full = label in reps
             if quick and cfg and not any(k in label for k in ("enum", "const")):
                 full = False      # option variant matters mostly for enum / const rendering; other slots: the classes that differ per docstring form
             if quick and meta == "pdm":
